@@ -674,7 +674,9 @@ impl Expr {
             Expr::Var { name, ty: _ } => RcDoc::text(name),
             Expr::Bool { value, ty: _ } => RcDoc::text(if *value { "true" } else { "false" }),
             Expr::Int { value, ty: _ } => RcDoc::as_string(value),
-            Expr::Float { value, ty: _ } => RcDoc::as_string(value),
+            // `{:?}` keeps the decimal point of an integral value: `4.0 / 3.0` printed as `4 / 3` is an
+            // integer constant division in Go
+            Expr::Float { value, ty: _ } => RcDoc::text(format!("{:?}", value)),
             Expr::String { value, ty: _ } => RcDoc::text("\"")
                 .append(RcDoc::text(escape_go_string(value)))
                 .append(RcDoc::text("\"")),
